@@ -2,7 +2,7 @@
  *
  * ops (one observation line per op; Driver/C17.lean answers the same script):
  *   screen W H F            F: 8m (colour-mapped 8 bpp) | 8 | 16 | 24 | 32   -> ok
- *   client I NFS [ENC]      connect+handshake, SetEncodings [ENC (+NewFBSize if NFS=1)], ENC: raw (default) |
+ *   client I NFS [ENC [cr]] connect+handshake, SetEncodings [ENC (+CopyRect if `cr`) (+NewFBSize if NFS=1)], ENC: raw (default) |
  *                           corre | zlib | ultra (all decoded here; the number of rectangles announced in
  *                           every FramebufferUpdate header must be the number that follows)        -> ok
  *   newfb W H SEED          rfbNewFramebuffer: a new buffer of W x H (same pixel format) with pseudo-random
@@ -13,6 +13,8 @@
  *   cl I                    -> cl I WxH            (the client's scaledScreen; "self" flag if == screen)
  *   draw X Y W H SEED       pseudo-random pixels into the rectangle, then rfbMarkRectAsModified -> ok
  *   mark X1 Y1 X2 Y2        rfbMarkRectAsModified only                                        -> ok
+ *   schedcopy X Y W H DX DY the application moves the pixels itself (same effect as `copy`), then calls
+ *                           rfbScheduleCopyRect                                               -> ok
  *   copy X Y W H DX DY      rfbDoCopyRect: the rectangle (inside the screen, as is its source) becomes a
  *                           copy of the pixels at (-DX,-DY) from it                          -> ok
  *   req I INC X Y W H       FramebufferUpdateRequest (client = scaled coordinates), pump, decode
@@ -82,6 +84,7 @@ typedef struct {
   int bad;               /* oracle failures seen while decoding */
   char badmsg[200];
   int enc;               /* preferred encoding asked for: 0 raw, 4 CoRRE, 6 Zlib, 9 Ultra */
+  int cr;                /* CopyRect announced */
   z_stream zs; int zinit;
 } hcl;
 static hcl cls[MAXC];
@@ -155,6 +158,7 @@ static void oracle_fail(hcl *h, const char *fmt, long a, long b) {
 static long rect_payload(const unsigned char *q, size_t avail, unsigned w, unsigned ht, long enc) {
   if (enc == 0) return (long)w * ht * BPP;
   if (enc == -223) return 0;
+  if (enc == 1) return 4;
   if (enc == 4) { if (avail < 4) return -1; return 4 + BPP + (long)rd32(q) * (BPP + 4); }
   if (enc == 6 || enc == 9) { if (avail < 4) return -1; return 4 + (long)rd32(q); }
   return -2;
@@ -164,6 +168,15 @@ static void decode_rect(hcl *h, const unsigned char *q, unsigned x, unsigned y, 
   unsigned xx, yy;
   if (enc == 0) {
     for (yy = 0; yy < ht; yy++) for (xx = 0; xx < w; xx++) { h->pic[(size_t)(y + yy) * h->pw + x + xx] = rdpix(q); q += BPP; }
+  } else if (enc == 1) {                       /* CopyRect (approximate under scaling: a source outside the
+                                                  picture is skipped, convergence is judged after a full refresh) */
+    unsigned sx = rd16(q), sy = rd16(q + 2);
+    if ((int)(sx + w) <= h->pw && (int)(sy + ht) <= h->ph) {
+      uint32_t *tmp = (uint32_t *)malloc(sizeof(uint32_t) * (size_t)w * ht);
+      for (yy = 0; yy < ht; yy++) for (xx = 0; xx < w; xx++) tmp[(size_t)yy * w + xx] = h->pic[(size_t)(sy + yy) * h->pw + sx + xx];
+      for (yy = 0; yy < ht; yy++) for (xx = 0; xx < w; xx++) h->pic[(size_t)(y + yy) * h->pw + x + xx] = tmp[(size_t)yy * w + xx];
+      free(tmp);
+    }
   } else if (enc == 4) {                       /* CoRRE: background + subrectangles with 8-bit geometry */
     unsigned long ns = rd32(q), k; uint32_t bg = rdpix(q + 4);
     q += 4 + BPP;
@@ -231,7 +244,7 @@ static int parse(hcl *h) {
           w = rd16(p + o + 4); ht = rd16(p + o + 6); enc = (long)(int32_t)rd32(p + o + 8); o += 12;
           sz = rect_payload(p + o, n - o, w, ht, enc);
           if (sz == -1) return 0;
-          if (sz == -2 || (enc != 0 && enc != -223 && enc != h->enc)) {
+          if (sz == -2 || (enc != 0 && enc != -223 && enc != h->enc && !(enc == 1 && h->cr))) {
             oracle_fail(h, "unexpected encoding %ld in rectangle %ld: stream out of step or not negotiated", enc, (long)i); return -1; }
           if (n < o + (size_t)sz) return 0;
           o += (size_t)sz;
@@ -243,7 +256,7 @@ static int parse(hcl *h) {
         off += 12;
         sz = rect_payload(p + off, n - off, w, ht, enc);
         if (enc == -223) { h->gotnfs = 1; h->nfsw = w; h->nfsh = ht; resize_pic(h, w, ht); continue; }
-        if (h->nrect < MAXR) { int *r = h->rect[h->nrect++]; r[0] = x; r[1] = y; r[2] = w; r[3] = ht; }
+        if (enc != 1 && h->nrect < MAXR) { int *r = h->rect[h->nrect++]; r[0] = x; r[1] = y; r[2] = w; r[3] = ht; }
         if (w == 0 || ht == 0 || (int)(x + w) > h->pw || (int)(y + ht) > h->ph) {
           if (!h->bad) snprintf(h->badmsg, sizeof h->badmsg, "rect %u,%u,%u,%u not a non-empty rectangle inside told size %dx%d", x, y, w, ht, h->pw, h->ph);
           h->bad++;
@@ -350,22 +363,23 @@ int main(void) {
       }
       puts("ok");
     } else if (!scr) { puts("bad-op");
-    } else if (!strcmp(tok[0], "client") && (n == 3 || n == 4)) {
-      int i = atoi(tok[1]); hcl *h; unsigned char m[20]; int k = 0, ne, enc = 0;
-      if (n == 4) {
+    } else if (!strcmp(tok[0], "client") && (n == 3 || n == 4 || (n == 5 && !strcmp(tok[4], "cr")))) {
+      int i = atoi(tok[1]); hcl *h; unsigned char m[24]; int k = 0, ne, enc = 0, cr = n == 5;
+      if (n >= 4) {
         if (!strcmp(tok[3], "raw")) enc = 0; else if (!strcmp(tok[3], "corre")) enc = 4;
         else if (!strcmp(tok[3], "zlib")) enc = 6; else if (!strcmp(tok[3], "ultra")) enc = 9;
         else { puts("bad-op"); continue; }
       }
       if (i < 0 || i >= MAXC || cls[i].used) { puts("bad-op"); continue; }
-      h = &cls[i]; memset(h, 0, sizeof *h); h->used = 1; h->nfs = atoi(tok[2]) ? 1 : 0; h->enc = enc;
+      h = &cls[i]; memset(h, 0, sizeof *h); h->used = 1; h->nfs = atoi(tok[2]) ? 1 : 0; h->enc = enc; h->cr = cr;
       vh_connect_pre(scr, &h->c, "RFB 003.008\n", 12);
       if (!h->c.cl || vh_handshake_none(scr, &h->c, 1) != 0) { puts("hs-failed"); continue; }
       h->live = 1;
       /* ServerInit consumed by vh_handshake_none (out reset). SetEncodings */
-      ne = h->nfs ? 2 : 1;
+      ne = 1 + (h->nfs ? 1 : 0) + (cr ? 1 : 0);
       m[k++] = 2; m[k++] = 0; m[k++] = 0; m[k++] = (unsigned char)ne;
       m[k++] = 0; m[k++] = 0; m[k++] = 0; m[k++] = (unsigned char)enc;
+      if (cr) { m[k++] = 0; m[k++] = 0; m[k++] = 0; m[k++] = 1; }                   /* CopyRect */
       if (h->nfs) { m[k++] = 0xFF; m[k++] = 0xFF; m[k++] = 0xFF; m[k++] = 0x21; } /* NewFBSize -223 */
       vh_send(&h->c, m, k);
       resize_pic(h, SW, SH);
@@ -416,6 +430,21 @@ int main(void) {
       for (yy = y; yy < y + ht; yy++) for (xx = x; xx < x + w; xx++)
         putpix(scr->frameBuffer, scr->paddedWidthInBytes, xx, yy, (uint32_t)(vh_rand() >> 16) & mask);
       rfbMarkRectAsModified(scr, x, y, x + w, y + ht);
+      puts("ok");
+    } else if (!strcmp(tok[0], "schedcopy") && n == 7) {
+      int x = atoi(tok[1]), y = atoi(tok[2]), w = atoi(tok[3]), ht = atoi(tok[4]), dx = atoi(tok[5]), dy = atoi(tok[6]), yy;
+      char *tmp;
+      if (x < 0 || y < 0 || w < 1 || ht < 1 || x + w > SW || y + ht > SH ||
+          x - dx < 0 || y - dy < 0 || x - dx + w > SW || y - dy + ht > SH) { puts("bad-op"); continue; }
+      /* the application moves the pixels itself ... */
+      tmp = (char *)malloc((size_t)w * ht * BPP);
+      for (yy = 0; yy < ht; yy++)
+        memcpy(tmp + (size_t)yy * w * BPP, scr->frameBuffer + (size_t)(y - dy + yy) * scr->paddedWidthInBytes + (size_t)(x - dx) * BPP, (size_t)w * BPP);
+      for (yy = 0; yy < ht; yy++)
+        memcpy(scr->frameBuffer + (size_t)(y + yy) * scr->paddedWidthInBytes + (size_t)x * BPP, tmp + (size_t)yy * w * BPP, (size_t)w * BPP);
+      free(tmp);
+      /* ... and reports it */
+      rfbScheduleCopyRect(scr, x, y, x + w, y + ht, dx, dy);
       puts("ok");
     } else if (!strcmp(tok[0], "copy") && n == 7) {
       int x = atoi(tok[1]), y = atoi(tok[2]), w = atoi(tok[3]), ht = atoi(tok[4]), dx = atoi(tok[5]), dy = atoi(tok[6]);
